@@ -71,3 +71,37 @@ def model_digest(model, with_cache=False):
 def quantise(x, s):
     """P-q: round(x * 2^s) as int."""
     return int(round(float(x) * (2.0 ** s)))
+
+
+# ---- limb quantisation: value * 2^s as hi * 2^20 + lo (0 <= lo < 2^20), |hi| < 2^30 ----
+LB = 1 << 20
+
+
+def pick_scale(values, n_terms=None, bits=50, smax=40):
+    """Largest s such that n_terms * max|v| * 2^s < 2^bits (so that TLC can sum n_terms values)."""
+    import math
+    vals = [abs(float(v)) for v in values if v == v and abs(float(v)) != float("inf")]
+    m = max(vals) if vals else 1.0
+    n = n_terms or max(len(vals), 1)
+    if m * n == 0:
+        return smax
+    s = int(math.floor(bits - math.log2(m * n) - 1e-9))
+    return max(min(s, smax), -200)
+
+
+def to_int(x, s):
+    """round(x * 2^s) as a Python int (exact: x is a float, so x*2^s is exact before rounding)."""
+    from fractions import Fraction
+    fx = Fraction(float(x)) * (Fraction(2) ** s)
+    return int(round(fx))
+
+
+def limb_of_int(n):
+    hi, lo = divmod(int(n), LB)
+    if not -(1 << 30) < hi < (1 << 30):
+        raise OverflowError(f"limb overflow: {n}")
+    return [hi, lo]
+
+
+def limb(x, s):
+    return limb_of_int(to_int(x, s))
